@@ -668,6 +668,18 @@ def run_C12(tier, rng, chk):
                 offs = range(64) if tier == "thorough" else (0, 1, 0x21, 2, 0x22, 31, 63, rng.randrange(64))
                 for off in offs:
                     items.append(P(0, *ct_group(mjd, hour, minute, off)))
+    # the last days of February and the first of March of every year the 17-bit MJD can express
+    # (where the 4 / 100 / 400 year rules of the conversion take effect), and the turn of every year
+    import datetime
+    epoch = datetime.date(1858, 11, 17)
+    for year in range(1859, 2217):
+        for (mo, da) in ((2, 27), (2, 28), (3, 1), (3, 2), (12, 31), (1, 1)):
+            mjd = (datetime.date(year, mo, da) - epoch).days
+            if 0 <= mjd < 131072:
+                items.append(P(0, *ct_group(mjd, 12, 0, 0)))
+                if (mo, da) in ((2, 28), (3, 1), (12, 31)):
+                    items.append(P(0, *ct_group(mjd, 23, 59, 1)))
+                    items.append(P(0, *ct_group(mjd, 0, 0, 0x21)))
     for e in ((0, 1, 0, 0), (0, 0, 1, 0), (0, 0, 0, 1), (0, 0, 0, 3), (3, 0, 0, 0), (0, 2, 2, 2)):
         for ver in (0, 1):
             items.append(P(0, *ct_group(60369, 12, 30, 2, ver), e))
@@ -1039,6 +1051,16 @@ def run_C05(tier, rng, chk):
         L = list(pre)
         L += ch
         st.append(("c05_allB_%d" % ci, L))
+    # every ECC with every PI country nibble (table indices), every AF code pair with a fixed partner
+    items = []
+    for nib in range(16):
+        for ecc in range(256):
+            items.append(P(0, (nib << 12) | 0x201, mkB(1, 0), ecc, 0))
+    for af in range(256):
+        items.append(P(0, 0x1000, mkB(0, 0), (af << 8) | 1, 0x2020))
+        items.append(P(0, 0x1000, mkB(0, 0), (1 << 8) | af, 0x2020))
+    for ci, ch in enumerate(chunks(items, 2400)):
+        st.append(("c05_tables_%d" % ci, list(pre) + ch))
     # first type-2 groups after reset with a corrected block B, thresholds raised; all flags
     for i in range(scale(tier, 30, 200)):
         gg = Gen(rng)
